@@ -130,14 +130,14 @@ PROPS['C11'] = dict(
 )
 PROPS['C10'] = dict(
     modules=['specs.wrap', 'contracts.wrap'],
-    bounded=['bounded.wrap'],
+    bounded=['bounded.wrap', 'bounded.deplookup'],
     level='other',
     design_ref='DESIGN.md §4 C10',
-    technique='deductive (kernel): VCs from the real AST of the wrap resolver (check_hash, _get_file_internal, one download attempt, the patch step of _resolve as region contracts with a ghost effect trace and exceptional postconditions) and of the candidate order of dependency(); the real Resolver on local archives bounded',
+    technique='deductive (kernel): VCs from the real AST of the wrap resolver (check_hash, _get_file_internal, one download attempt, the patch step of _resolve as region contracts with a ghost effect trace and exceptional postconditions) the whole of _download and check_can_download (nothing is fetched under nodownload), and the candidate order of dependency(); the real Resolver on local archives and file:// URLs bounded; the dependency() policy over the cross product of circumstances through the real `meson setup` (pkg-config file as system dependency, local subproject as fallback) bounded',
     level_text='Proved for all wrap files / paths: check_hash returns normally only if the file hashes to the recorded value (or none is recorded and none required); every path handed out by _get_file_internal passed check_hash or _download on that call; a download attempt leaves its try block normally only with a matching hash; WHATEVER exception the patch or diff step raises, the unpacked directory is removed before it propagates; candidates are tried in the documented order with the system lookup omitted iff the fallback is forced and known.',
-    level_note='Assumed: hashlib/file reading (sha256_of abstract), os/pathlib calls as effects or uninterpreted functions, methods called on self as effects that may raise. Region contracts verify one statement of a large function (stated per function in the evidence). NOT decided: the end-to-end decision table of dependency() (find_external_dependency, version matching, allow_fallback), nodownload on every fetch path, fault sequences on a real file system.',
+    level_note='Assumed: hashlib/file reading (sha256_of abstract), os/pathlib calls as effects or uninterpreted functions, methods called on self as effects that may raise. Region contracts verify one statement of a large function (stated per function in the evidence). NOT decided deductively: the end-to-end decision table of dependency() (find_external_dependency, version matching, allow_fallback) — checked on the cross product of circumstances through the real meson setup, bounded.',
     explanation='kernel: hash check dominates use, cleanup on failed patch, candidate order proved; end-to-end fallback policy not decided',
-    not_decided=['full cross product of system dependency x constraint x fallback kind x wrap_mode x force_fallback_for x required x allow_fallback', 'repeated lookups return the same dependency', 'nothing fetched under nodownload (only the local cases are exercised, bounded)'],
+    not_decided=['the dependency() policy as a proof (bounded: the full cross product through the real meson setup in the thorough tier, a sample in the quick tier)', 'lookup sequences of length 3', 'fault injection at each step of fetch -> verify -> unpack -> patch -> diff beyond the cases listed under coverage.bounded'],
 )
 PROPS['C08'] = dict(
     modules=['contracts.persist', 'contracts.setoption'],
